@@ -28,7 +28,7 @@ MANIFEST = {
     "note": "Trusted: the reference reading of 'selected by the cleaning targets' (the file is a distfile of a matched package or its name "
             "starts with a matched package's name); repository iteration (C08); package metadata.",
 }
-ASSUMPTIONS = ["with targets, a file is selectable only if it belongs to a matched package, its name starts with the name of a matched package, or it shares the name stem (up to the version) of one of a matched package's distfiles: pclean's way of finding files of versions that left the tree"]
+ASSUMPTIONS = ["re.match is modelled for the pattern shape ^(\\d+)(unit|...)$ / ^(\\d+)([UNITS])$ only (parse_time / parse_size); int() of a digit string is z3 str.to_int", "with targets, a file is selectable only if it belongs to a matched package, its name starts with the name of a matched package, or it shares the name stem (up to the version) of one of a matched package's distfiles: pclean's way of finding files of versions that left the tree"]
 
 
 def mk_universe(rnd):
@@ -331,6 +331,109 @@ def enum_distfile_names(seed):
             "cases": cases, "failures": fails}
 
 
+def _unit_value_task(ex, which):
+    """parse_time / parse_size on EVERY string: a value is accepted exactly when it is a run of decimal digits followed by one of the units, and then
+    means digits x unit (for --modified: that long before now); anything else raises the argument error.  re.match is modelled for the one
+    pattern shape these parsers build, ^(\d+)(unit|unit|...)$ or ^(\d+)([UNITS])$ (checked syntactically here; another shape is undecided)."""
+    import argparse
+    import re as _re
+    import z3
+    from pyvc.api import call, Interp
+    from pyvc.models import Model, ModelHost
+    from pyvc.sym import KStr, KInt, SBool, SInt, SStr, OutOfSubset
+    import pkgcore.scripts.pclean as M
+    DAY = 24 * 60 * 60
+    UNITS = {"parse_time": {"s": 1, "min": 60, "h": 3600, "d": DAY, "w": 7 * DAY, "m": 30 * DAY, "y": 365 * DAY}, "parse_size": {"B": 1, "K": 1024, "M": 1024 ** 2, "G": 1024 ** 3}}[which]
+    P = f"C46.{which}"
+    text = KStr.fresh("value")
+    ex.inputs.update({"value": text})
+    now = KInt.fresh("now")
+    digits = z3.Plus(z3.Range("0", "9"))
+
+    class Match(ModelHost):
+        def __init__(self, g1, g2):
+            self.g = {1: g1, 2: g2}
+
+        def getattr(self, it_, name):
+            if name == "group":
+                return Model(lambda it__, i: self.g[i], "match.group", pure=True)
+            raise OutOfSubset(f"match.{name}")
+
+    def m_match(it_, pattern, s_, *flags):
+        if flags or not isinstance(pattern, str):
+            raise OutOfSubset("re.match with flags / a symbolic pattern")
+        mo = _re.fullmatch(r"\^\(\\d\+\)\((?:\[(\w+)\]|((?:\w+\|)*\w+))\)\$", pattern)
+        if mo is None:
+            raise OutOfSubset(f"re.match pattern of another shape: {pattern!r}")
+        alts = list(mo.group(1)) if mo.group(1) else mo.group(2).split("|")
+        g1, g2 = KStr.fresh("digits"), KStr.fresh("unit")
+        shape = z3.And(z3.InRe(g1.t, digits), z3.Or(*[g2.t == z3.StringVal(a) for a in alts]), s_.t == z3.Concat(g1.t, g2.t))
+        # the value matches exactly when such a split exists (digits and unit are then determined by it: no unit ends in a digit)
+        can = z3.InRe(s_.t, z3.Concat(digits, z3.Union(*[z3.Re(a) for a in alts]) if len(alts) > 1 else z3.Re(alts[0])))
+        if it_.ex.branch(SBool(can)):
+            it_.ex.assume(SBool(shape))
+            return Match(g1, g2)
+        return None
+    it = Interp(ex, label=P, models={M.re.match: Model(m_match, "re.match"), M.time.time: Model(lambda it_: now, "time.time", pure=True)})
+    out = call(it, it.target(PC, which), text)
+    ok_re = z3.Concat(digits, z3.Union(*[z3.Re(u) for u in UNITS]))
+    wellformed = z3.InRe(text.t, ok_re)
+    if out.raised:
+        ex.cover("rejects")
+        ex.oblige(f"{P}.raises.the_argument_error_only", out.exc.cls is argparse.ArgumentTypeError, kind="exceptional-postcondition")
+        ex.oblige(f"{P}.raises.only_for_a_value_that_is_not_digits_and_a_unit", SBool(z3.Not(wellformed)), kind="exceptional-postcondition")
+        return
+    ex.cover("accepts")
+    ex.oblige(f"{P}.ensures.accepts_only_digits_followed_by_a_unit", SBool(wellformed))
+    r = out.value
+    rt = r.t if isinstance(r, SInt) else z3.IntVal(r) if isinstance(r, int) else None
+    ex.oblige(f"{P}.ensures.a_number", rt is not None)
+    if rt is None:
+        return
+    d, u = z3.String("d!c46"), z3.String("u!c46")
+    mult = z3.IntVal(0)
+    for name, m in UNITS.items():
+        mult = z3.If(u == z3.StringVal(name), z3.IntVal(m), mult)
+    amount = z3.StrToInt(d) * mult
+    want = (now.t - amount) if which == "parse_time" else amount
+    ex.oblige(f"{P}.ensures.the_value_is_digits_times_unit" + ("_before_now" if which == "parse_time" else ""),
+              SBool(z3.ForAll([d, u], z3.Implies(z3.And(z3.InRe(d, digits), z3.Or(*[u == z3.StringVal(n_) for n_ in UNITS]), text.t == z3.Concat(d, u)), rt == want))))
+
+
+def t_parse_size(ex):
+    _unit_value_task(ex, "parse_size")
+
+
+def t_parse_time(ex):
+    _unit_value_task(ex, "parse_time")
+
+
+def _replay_unit_value(which):
+    def replay(model):
+        import argparse
+        import re as _re
+        from unittest import mock
+        import pkgcore.scripts.pclean as M
+        DAY = 24 * 60 * 60
+        units = {"parse_time": {"s": 1, "min": 60, "h": 3600, "d": DAY, "w": 7 * DAY, "m": 30 * DAY, "y": 365 * DAY}, "parse_size": {"B": 1, "K": 1024, "M": 1024 ** 2, "G": 1024 ** 3}}[which]
+        v = model.get("value", "")
+        mo = _re.fullmatch("([0-9]+)(" + "|".join(units) + ")", v)
+        T0 = 1_700_000_000.0
+        with mock.patch("time.time", return_value=T0):
+            try:
+                got = getattr(M, which)(v)
+            except argparse.ArgumentTypeError:
+                return mo is not None, f"{which}({v!r}) rejects the value; digits-and-unit: {mo is not None}"
+            except Exception as e:
+                return True, f"{which}({v!r}) raised {type(e).__name__}: {e}"
+        if mo is None:
+            return True, f"{which}({v!r}) accepts a value that is not digits followed by a unit (as {got})"
+        amount = int(mo.group(1)) * units[mo.group(2)]
+        want = T0 - amount if which == "parse_time" else amount
+        return got != want, f"{which}({v!r}) = {got}; {mo.group(1)} x {mo.group(2)} is {amount}" + (f" (that long before now: {want})" if which == "parse_time" else "")
+    return replay
+
+
 def enum_option_values(seed):
     """the values behind the age and size filters: pclean's -m / --modified TIME ("skip files modified since TIME": the bound is now minus the
     span) and -s / --size SIZE options as their type= parsers read them.  Spans: s, min, h, d, w, m (a month of 30 days), y (a year of 365 days);
@@ -387,8 +490,10 @@ def tasks():
     return [Task("C46.dist_cleaning", None, [(PC, "_dist_validate_args"), (PC, "_setup_shared_opts"), (PC, "_setup_restrictions")], enumerate=enum_cleaning),
             Task("C46.distfile_names", None, [("src/pkgcore/ebuild/ebuild_src.py", "base.distfiles")], enumerate=enum_distfile_names),
             Task("C46.option_values", None, [(PC, "parse_time"), (PC, "parse_size")], enumerate=enum_option_values),
+            Task("C46.parse_size", t_parse_size, [(PC, "parse_size")]),
+            Task("C46.parse_time", t_parse_time, [(PC, "parse_time")]),
             Task("C46._remove", t_remove, [(PC, "_remove")]),
             Task("C46.file_filters", t_file_filters, [(PC, "_setup_file_opts"), (PC, "Filters.run"), (PC, "Filters.append")])]
 
 
-REPLAY = {}
+REPLAY = {"C46.parse_time.": _replay_unit_value("parse_time"), "C46.parse_size.": _replay_unit_value("parse_size")}
